@@ -1,16 +1,17 @@
 #!/bin/bash
 # Must-fail corpus: every seeded change under /verif/seeded (and /verif/selftest/mutants) is applied to a scratch copy of
 # /repo (outside /repo and /verif), the check of its property is run against that copy, and the run must report a
-# VIOLATION (exit 1). Negative control: the unchanged copy must pass. The scratch copy is removed afterwards.
+# VIOLATION (exit 1). Behaviour-preserving edits under selftest/benign (expect: pass) must leave the check green: they
+# guard against alarms on code where the property still holds. The scratch copy is removed afterwards.
 # usage: selftest.sh [name ...]
 export GOFLAGS=-mod=mod GOPROXY=off GOSUMDB=off GOTOOLCHAIN=local
 cd "$(dirname "$0")/.."
 [ -x bin/vcgo ] || ./setup.sh >/dev/null
 TMP=$(mktemp -d /tmp/vselftest.XXXXXX); trap 'rm -rf $TMP' EXIT
-names="$@"; [ -z "$names" ] && names=$(ls seeded selftest/mutants 2>/dev/null | grep -v : | sort -u)
+names="$@"; [ -z "$names" ] && names=$(ls seeded selftest/mutants selftest/benign 2>/dev/null | grep -v : | sort -u)
 ok=0; bad=0
 for n in $names; do
-  d=seeded/$n; [ -d $d ] || d=selftest/mutants/$n
+  d=seeded/$n; [ -d $d ] || d=selftest/mutants/$n; [ -d $d ] || d=selftest/benign/$n
   [ -f $d/patch.diff ] || continue
   prop=$(python3 -c "import json;print(json.load(open('$d/meta.json'))['property'])")
   expect=$(python3 -c "import json;print(json.load(open('$d/meta.json')).get('expect','caught'))")
@@ -21,7 +22,8 @@ for n in $names; do
   out=$(VERIF_REPO=$TMP/repo VERIF_DIR=$TMP/verif ./bin/vcgo check $prop --tier quick 2>&1); rc=$?
   viol=$(echo "$out" | grep -c '^VIOLATION')
   obl=$(echo "$out" | grep -m2 'obligation ' | sed 's/^ *obligation //' | cut -c1-90 | tr '\n' '|')
-  if [ $rc -eq 1 ] && [ $viol -gt 0 ]; then r=caught; else r=missed; fi
+  if [ $rc -eq 1 ] && [ $viol -gt 0 ]; then r=caught; elif [ $rc -eq 0 ] && [ $viol -eq 0 ]; then r=pass; else r=broken; fi
+  [ "$expect" = missed ] && [ $r = pass ] && r=missed
   if [ "$r" = "$expect" ]; then ok=$((ok+1)); echo "OK   $n ($prop): $r  $obl"; else bad=$((bad+1)); echo "BAD  $n ($prop): $r, expected $expect (exit $rc)"; fi
 done
 echo "selftest: $ok as expected, $bad not"
